@@ -24,10 +24,15 @@ mod sync_impl;
 use parking_lot::Mutex;
 use std::collections::HashSet;
 use std::hash::Hash;
+#[cfg(not(excsn_fibre_verif))]
 use std::sync::{
   atomic::{AtomicBool, Ordering},
   Arc,
 };
+#[cfg(excsn_fibre_verif)]
+use std::sync::Arc;
+#[cfg(excsn_fibre_verif)]
+use crate::internal::sync::{AtomicBool, Ordering};
 
 // --- Public Re-exports ---
 
